@@ -1230,7 +1230,9 @@ fn gen_link_set(rng: &mut Rng, id: u64) -> (Vec<LinkObj>, Vec<(usize, u64, Strin
         if third == 1 {
             objs[1].img.needed.push("liby.so".into());
         } else {
-            objs[0].img.needed.push("liby.so".into());
+            // listed first: libx.so, which refers to liby.so's exports without naming it as a dependency, is relocated
+            // when it is loaded, and the linker resolves against the objects loaded so far
+            objs[0].img.needed.insert(0, "liby.so".into());
         }
         objs.push(LinkObj { name: "liby.so".into(), img: liby });
     }
